@@ -96,9 +96,9 @@ func DecodeYAML(text string) (docs []*yqlib.CandidateNode, err error, panicked i
 
 // Doc decodes a value (rendered as JSON text, which is YAML) into a fresh node graph.
 func Doc(v *val.V) *yqlib.CandidateNode {
-	docs, err, p := DecodeYAML(v.JSON())
+	docs, err, p := DecodeYAML(v.YAMLFlow())
 	if err != nil || p != nil || len(docs) != 1 {
-		panic(fmt.Sprintf("harness: cannot decode generated document %s: %v %v", v.JSON(), err, p))
+		panic(fmt.Sprintf("harness: cannot decode generated document %s: %v %v", v.YAMLFlow(), err, p))
 	}
 	return docs[0]
 }
